@@ -30,7 +30,7 @@ def replay(rec, ctx):
     from cherab.core.beam import BeamAttenuator
     from cherab.core.atomic import Line
     from cherab.core.model import BeamCXLine, BeamEmissionLine
-    rates = (ctx or rec)["rates"]
+    rates = dict((ctx or rec)["rates"], bcx_zero=rec.get("bcx_zero", 0))
     calls = EC.Calls()
     ad = EC.provider(rates, calls)
     from scipy import constants as K
